@@ -301,12 +301,14 @@ func ruleClientRouting(c *chk.Ctx) {
 				return
 			}
 			n++
-			routed := false
-			for _, cd := range ir.CondsAt(lk.Block()) {
-				if is, truth := condIsMsgRequest(c, cd); is && !truth {
-					routed = true
+			routed := c.P.AllContexts(lk, nil, func(cs []ir.Cond) bool {
+				for _, cd := range cs {
+					if is, truth := condIsMsgRequest(c, cd); is && !truth {
+						return true
+					}
 				}
-			}
+				return false
+			})
 			c.Check(routed, "WHO.route", f, "requests routed away before matching", lk.Pos(), "the pending table is consulted only on the ¬isRequestOrNotification edge", "a server-initiated request could be matched against the pending table by its id")
 		})
 	}
